@@ -15,6 +15,7 @@ def load_tsv(name):
     return res
 final = load_tsv("RESULTS.tsv")
 r2 = load_tsv("RESULTS_round2.tsv")
+r3 = load_tsv("RESULTS_round3.tsv")
 def verdict(rs, own):
     mine = [x for x in rs if x["check"] == own]
     if not mine: return "not run"
@@ -33,10 +34,11 @@ for d in sorted(glob.glob(os.path.join(ROOT, "seeded", "C??-?"))):
     ver = json.load(open(d + "/verify.json")) if os.path.exists(d + "/verify.json") else {}
     files = sorted(set(re.findall(r"^\+\+\+ b/(\S+)", open(d + "/patch.diff").read(), re.M)))
     old = json.load(open(d + "/meta.json")) if os.path.exists(d + "/meta.json") else {}
-    rnd = 2 if int(id.split("-")[1]) >= 3 else 1
-    first = old.get("checks_run", {}).get("first_round") if rnd == 1 else verdict(r2.get(id, []), id.split("-")[0])
+    n = int(id.split("-")[1])
+    rnd = 3 if n >= 5 else (2 if n >= 3 else 1)
+    first = old.get("checks_run", {}).get("first_round") if rnd == 1 else verdict((r2 if rnd == 2 else r3).get(id, []), id.split("-")[0])
     meta = {"id": id, "property": id.split("-")[0], "round": rnd, "title": title, "files_touched": files,
-            "origin": "written by an independent sub-agent that was given only the property text and a scratch git worktree of /repo (nothing from /verif)" + ("; second round, after the checks had been strengthened against the first 40" if rnd == 2 else ""),
+            "origin": "written by an independent sub-agent that was given only the property text and a scratch git worktree of /repo (nothing from /verif)" + ("; second round, after the checks had been strengthened against the first 40" if rnd == 2 else ("; third round, after two rounds of strengthening" if rnd == 3 else "")),
             "change": sec("Change"), "what_goes_wrong": sec("What goes wrong"),
             "needs_to_manifest": sec("Needs in order to manifest") or sec("Needs, in order to manifest") or sec("Needed to manifest") or sec("Needs"),
             "why_tests_miss": sec("Why the existing tests do not notice") or sec("Why the tests do not notice"),
